@@ -59,7 +59,20 @@ CASES += [
 
 CASES += [
     {"name": "serial path of the range helper does not record its block (the repaired defect)", "kind": "mutant", "rule": "C20-F", "edits": [
-        ("quantarhei/core/parallel.py", "        config.range = [start, stop]\n        \n        return range(start, stop)", "        return range(start, stop)", 1)]},
+        ("quantarhei/core/parallel.py", "        if config.parallel_region == 1:\n            config.range = [start, stop]\n        \n        return range(start, stop)", "        return range(start, stop)", 1)]},
     {"name": "serial block recorded as a tuple", "kind": "twin", "edits": [
-        ("quantarhei/core/parallel.py", "        config.range = [start, stop]\n", "        config.range = (start, stop)\n", 1)]},
+        ("quantarhei/core/parallel.py", "            config.range = [start, stop]\n", "            config.range = (start, stop)\n", 1)]},
+]
+
+CASES += [
+    {"name": "nested loop overwrites the recorded block: range helper (the repaired defect)", "kind": "mutant", "rule": "C20-F", "edits": [
+        ("quantarhei/core/parallel.py", "        if config.parallel_region == 1:\n            config.range = [start, stop]\n", "        config.range = [start, stop]\n", 1)]},
+    {"name": "nested loop overwrites the recorded block: list helper (the repaired defect)", "kind": "mutant", "rule": "C20-F", "edits": [
+        ("quantarhei/core/parallel.py", "        rng = [0, len(dlist)]\n        # in a nested region the record belongs to the outermost loop\n        if config.parallel_region == 1:\n            config.range = rng\n", "        rng = [0, len(dlist)]\n        config.range = rng\n", 1)]},
+    {"name": "array helper records for the wrong nesting depth", "kind": "mutant", "rule": "C20-F", "edits": [
+        ("quantarhei/core/parallel.py", "        rng = [0, array.shape[0]]\n        # in a nested region the record belongs to the outermost loop\n        if config.parallel_region == 1:", "        rng = [0, array.shape[0]]\n        # in a nested region the record belongs to the outermost loop\n        if config.parallel_region > 1:", 1)]},
+    {"name": "allreduce writes back with two indices (the repaired defect)", "kind": "mutant", "rule": "C20-F", "edits": [
+        ("quantarhei/core/parallel.py", "            A[...] = B", "            A[:,:] = B", 1)]},
+    {"name": "allreduce writes back with a full slice", "kind": "twin", "edits": [
+        ("quantarhei/core/parallel.py", "            A[...] = B", "            A[:] = B", 1)]},
 ]
